@@ -301,6 +301,7 @@ class World:
         self.keep = []
         self.insts = {}
         self.host = None
+        self.cleanlog = []
 
     def depth(self):
         return self.under_test.enable_count if self.under_test is not None else 0
@@ -321,11 +322,13 @@ class World:
         if kind == 'plain':
             src += 'def f%d(*a):\n    W.log.append((%d, [W.canon_arg(x) for x in a], W.depth()))\n    return ("r", %d)\n' % (fid, fid, fid)
         elif kind == 'gen':
-            src += 'def f%d(*a):\n    W.log.append((%d, [W.canon_arg(x) for x in a], W.depth()))\n    yield ("r", %d)\n' % (fid, fid, fid)
+            src += ('def f%d(*a):\n    W.log.append((%d, [W.canon_arg(x) for x in a], W.depth()))\n    try:\n        yield ("r", %d)\n'
+                    '    finally:\n        W.cleanlog.append((%d, W.depth()))\n' % (fid, fid, fid, fid))
         elif kind == 'coro':
             src += 'async def f%d(*a):\n    W.log.append((%d, [W.canon_arg(x) for x in a], W.depth()))\n    return ("r", %d)\n' % (fid, fid, fid)
         else:
-            src += 'async def f%d(*a):\n    W.log.append((%d, [W.canon_arg(x) for x in a], W.depth()))\n    yield ("r", %d)\n' % (fid, fid, fid)
+            src += ('async def f%d(*a):\n    W.log.append((%d, [W.canon_arg(x) for x in a], W.depth()))\n    try:\n        yield ("r", %d)\n'
+                    '    finally:\n        W.cleanlog.append((%d, W.depth()))\n' % (fid, fid, fid, fid))
         ns = {'W': self}
         exec(compile(src, 'tower_fn_%d_%s.py' % (fid, kind), 'exec'), ns)
         f = ns['f%d' % fid]
@@ -423,6 +426,7 @@ class World:
     def access(self, obj, acc):
         """perform the access on the object (hosting descriptors on a class); returns the events"""
         self.log.clear()
+        self.cleanlog.clear()
         hosted = isinstance(obj, (classmethod, staticmethod, functools.partialmethod, property, functools.cached_property))
         res = None
         try:
@@ -454,18 +458,17 @@ class World:
                     raise TypeError('not a descriptor')
                 res = obj(*acc[1])
             # consume generator / coroutine results so the body runs
+            # (generators: the first item, then an early close — the clean-up code of the body runs inside close())
             if inspect.isgenerator(res):
-                res = list(res)
+                g = res
+                res = [next(g)]
+                g.close()
             elif inspect.iscoroutine(res):
                 res = drive_awaitable(res)
             elif inspect.isasyncgen(res):
-                items = []
-                try:
-                    while True:
-                        items.append(drive_awaitable(res.asend(None)))
-                except StopAsyncIteration:
-                    pass
-                res = items
+                g = res
+                res = [drive_awaitable(g.asend(None))]
+                drive_awaitable(g.aclose())
         except (AttributeError, TypeError) as e:
             evs = ['run:%d:%s:%d' % (f, ','.join(map(str, a)), d) for (f, a, d) in self.log]
             return evs + ['err'], 'EXC ' + type(e).__name__
@@ -493,15 +496,18 @@ def run_tower_case(case):
             r['registered_again'] = [w.canon(f) for f in prof.functions[nfuncs_before + len(r['registered']):]]
         accs = []
         runs_total = {}
+        cleanups = []
         for acc in case['accesses']:
             a = tuple(acc)
             e0, v0 = w.access(orig, a)
             e1, v1 = w.access(wrapped, a)
+            cleanups += list(w.cleanlog)
             for ev in e1:
                 if ev.startswith('run:'):
                     fid = int(ev.split(':')[1])
                     runs_total[fid] = runs_total.get(fid, 0) + 1
             e2, v2 = w.access(again, a)
+            cleanups += list(w.cleanlog)
             for ev in e2:
                 if ev.startswith('run:'):
                     fid = int(ev.split(':')[1])
@@ -519,13 +525,20 @@ def run_tower_case(case):
         # (the logging line holds an inlined comprehension: several line events per execution on 3.12)
         if pkind == 'line':
             hits = {}
+            clean_hits = {}
             for (fname, first, name), entries in prof.get_stats().timings.items():
                 if fname.startswith('tower_fn_'):
                     fid = int(fname.split('_')[2])
+                    kind = fname.split('_')[3][:-3]
+                    body = first + (3 if kind in ('gen', 'agen') else 2)       # the yield sits inside `try:` there
                     for (l, h, _t) in entries:
-                        if l == first + 2:
+                        if l == body:
                             hits[fid] = hits.get(fid, 0) + h
+                        if kind in ('gen', 'agen') and l == first + 5:
+                            clean_hits[fid] = clean_hits.get(fid, 0) + h
             r['hits'] = {str(k): v for k, v in hits.items()}
+            r['cleanup_hits'] = {str(k): v for k, v in clean_hits.items()}
+            r['cleanup_runs'] = [[f, d] for (f, d) in cleanups]
             r['runs_while_wrapped'] = {str(k): v for k, v in runs_total.items()}
         out[pkind] = r
     return out
